@@ -2,7 +2,7 @@
 from .. import scriptprop
 
 ID = "C03"
-GEN = ["MapSetShapes.lean", "SetsShapes.lean", "SyncSetShapes.lean"]   # regenerated from the source on every run (tie 4B): kernels / call shapes / function shapes
+GEN = ["MapSetShapes.lean", "SetsShapes.lean", "SyncSetShapes.lean", "MapFlow.lean"]   # regenerated from the source on every run (tie 4B): kernels / call shapes / function shapes
 RULE = ("programs over up to 6 set handles of mixed implementation (maps.Set / sync2.Set), all four pairings and self-aliased calls, "
         "concurrent sets aged by Has bursts so that read-only, amended, expunged and freshly promoted layouts occur (layout observed through the verif hook); "
         "universe 8 quick / 32 thorough; the zero value of maps.Set (nil map) as receiver of the non-mutating methods and as argument; String() also on string-typed members that look like list syntax ([a], b], {d}); non-trivial = at least one binary operation")
